@@ -218,7 +218,15 @@ def adapter_c10_layout(stage, prop, h, r, unlisted, outdir):
             ref += b" " + w3
         if len(text) < n and rest:
             text += bytes(rest[:1]); ref += bytes(rest[:1])
-        a, b = text, ref
+        # absolute expectation of 10.b: keyword when the last word ends there, identifier otherwise
+        good = ", true, " in inst
+        kw = {b"to": "IfToSay", b"not": "IfNotSo", b"pass": "SmallPass"}[w2]
+        expect = kw if (good or len(text) == len(w1 + s1 + w2) + (len(s2 + w3) if w3 else 0)) else 'Identifier("%s")' % w1.decode()
+        case = ["c10-first-token", text.hex(), expect]
+        hit, outs = _native_case(stage, case)
+        path = _save(outdir, prop, h, {"kind": "native-case", "case": case, "expect_rc": 1, "runs": outs,
+                                       "text": text.decode("utf-8", "replace")})
+        return Outcome(hit, path, outs[0]["output"].strip()[-400:])
     case = ["c10-layout", a.hex(), b.hex()]
     hit, outs = _native_case(stage, case)
     path = _save(outdir, prop, h, {"kind": "native-case", "case": case, "expect_rc": 1, "runs": outs,
@@ -239,7 +247,7 @@ _LIT = {0: "1", 1: '"s"', 2: "true", 3: "[1]", 4: 'command("echo")', 5: 'command
 _TNAME = ["number", "string", "bool", "array", "process_command", "process_result", "dynamic", "null", "unknown"]
 
 
-def _c09_scripts(h, vals):
+def _c09_scripts(h, vals, clauses=()):
     """Returns [(script, expect)] with expect in {'reject', 'accept'}; the counterexample reproduces
     when the real front end does the opposite, or accepts and then crashes."""
     flat = [v[0] if v else 0 for v in (vals or [])]
@@ -263,8 +271,18 @@ def _c09_scripts(h, vals):
         for opx in ([op] if name != "binary_logic" else ["and", "or"]):
             out.append((pre + "make r get %s %s %s\nshout(r)\n" % (_LIT[tl], opx, _LIT[tr]), "accept" if adm else "reject"))
     elif name.startswith("function_body"):
-        out.append(("make c get true\njasi(c) start\n  do f() start\n    comot\n  end\n  f()\n  c get false\nend\n", "reject"))
-        out.append(("make c get true\njasi(c) start\n  do f() start\n    next\n  end\n  f()\n  c get false\nend\n", "reject"))
+        # one family of scripts per violated clause of the function-body contract
+        if "loop-context" in clauses or not clauses:
+            out.append(("make c get true\njasi(c) start\n  do f() start\n    comot\n  end\n  f()\n  c get false\nend\n", "reject"))
+            out.append(("make c get true\njasi(c) start\n  do f() start\n    next\n  end\n  f()\n  c get false\nend\n", "reject"))
+        if "function-context" in clauses:
+            out.append(("do f() start\n  return 1\nend\nshout(f())\n", "accept"))
+        if "context" in clauses:
+            # the context after the definition is the context before it
+            out.append(("do f() start\n  shout(1)\nend\nf()\nreturn 1\n", "reject"))
+            out.append(("do g() start\n  do f() start\n    shout(1)\n  end\n  f()\n  return 2\nend\nshout(g())\n", "accept"))
+            out.append(("make c get true\njasi(c) start\n  do f() start\n    shout(1)\n  end\n  f()\n  c get false\n  comot\nend\n", "accept"))
+            out.append(("do f() start\n  shout(1)\nend\nf()\ncomot\n", "reject"))
     elif name in ("comot_context", "next_context"):
         kw = "comot" if name.startswith("comot") else "next"
         out.append((kw + "\n", "reject"))
@@ -285,7 +303,7 @@ def _c09_scripts(h, vals):
 
 def adapter_c09_script(stage, prop, h, r, unlisted, outdir):
     vals, _t = _values(stage, h)
-    scripts = _c09_scripts(h, vals)
+    scripts = _c09_scripts(h, vals, [cl for cl, _c in unlisted])
     tried = []
     for script, expect in scripts:
         for rel in (False, True):
